@@ -169,7 +169,10 @@ func (p *PX) byteSeqOf(v ssa.Value, fr *pxFrame, st *pxState) *ByteSeq {
 	case *ssa.UnOp:
 		if x.Op == token.MUL {
 			if al, ok := x.X.(*ssa.Alloc); ok {
-				return st.bseq[p.reg(fr, al)+"*"]
+				if bs := st.bseq[p.reg(fr, al)+"*"]; bs != nil {
+					return bs
+				}
+				return nilCellBytes(st, p.reg(fr, al)+"*", x.Type())
 			}
 			if ia, ok := x.X.(*ssa.IndexAddr); ok && isByteSlice(x.Type()) && !isByteSlice(ia.X.Type()) {
 				// an element of a [][]byte whose cell was filled on this path
@@ -178,7 +181,10 @@ func (p *PX) byteSeqOf(v ssa.Value, fr *pxFrame, st *pxState) *ByteSeq {
 			if _, ok := x.X.(*ssa.FreeVar); ok {
 				// a variable captured by a closure: the cell of the frame that made it
 				if cell, ok := p.cellOf(x.X, fr); ok {
-					return st.bseq[cell]
+					if bs := st.bseq[cell]; bs != nil {
+						return bs
+					}
+					return nilCellBytes(st, cell, x.Type())
 				}
 			}
 			if g, ok := x.X.(*ssa.Global); ok {
@@ -566,4 +572,17 @@ func byteOrderGetter(sc *ssa.Function) bool {
 		return true
 	}
 	return false
+}
+
+// nilCellBytes: a []byte variable that still holds the zero value it was
+// declared with (`var out []byte` … `out = append(out, …)`, also when the
+// append sits in a closure that captured the variable) is the empty sequence.
+func nilCellBytes(st *pxState, cell string, t types.Type) *ByteSeq {
+	if !isByteSlice(t) {
+		return nil
+	}
+	if v, ok := st.vals[cell]; ok && v != nil && v.K == TLeaf && strings.HasPrefix(v.key, "nil:") {
+		return &ByteSeq{}
+	}
+	return nil
 }
